@@ -160,6 +160,8 @@ def decodeFrame (p : Profile) (si : Option SInfo) (bytes : List Nat) : Res Decod
     | .error e => .error e
     | .ok () =>
       if !crc8Valid (crc8 (bytes.take (bytes.length - rest.length / 8))) then .error (.err "Crc8Mismatch") else
+      -- `SignedBitCount<32>` cannot hold a depth above 32 (type invariant of the crate)
+      if h.bps > 32 then .error (.err "ExcessiveBps") else
       match decSubframes p h.assign h.blockSize h.bps h.assign.count 0 rest with
       | .error e => .error e
       | .ok (chs, rest2) =>
